@@ -1208,6 +1208,10 @@ func (w *c15World) finishRec(p *c15Pending) (c15StepObs, []Mon) {
 			}
 			mons = append(mons, Mon{Sig: sig, Why: why + fmt.Sprintf(" (revision %s, cache before: %v)", rw.rev.Name, cacheBefore)})
 		}
+		// an image the specification calls invalid (two base layers, no package.yaml) declares nothing
+		if c15ImgInitFails(rw.rev.Img) && cacheBefore[s.R] == "absent" {
+			mons = append(mons, Mon{Sig: "C15:installed-from-invalid-image", Why: fmt.Sprintf("a package was established from an image of layout %q, which has no well-defined package stream", rw.rev.Img)})
+		}
 		// (3) gates
 		mons = append(mons, c15GateMonitors(w, rw, s, verifiedBefore)...)
 	}
